@@ -211,9 +211,9 @@ func init() {
 
 	clusterOverlay := []Inject{{RepoRel: "internal/cluster/zz_verif_export.go", Src: "overlay/cluster_export.go.txt"}}
 	registry["C18"] = &Check{
-		Rule: "2-7 real cluster.NodeActor values in a deterministic discrete-event simulation on a virtual clock (package csim: one queue per node, handlers run to completion except inside Ask, per-link FIFO, every message through the library's remoting envelope codec, global math/rand seeded per case): seed layouts (one seed; two seeds listed by all = two self-seeded islands that must merge; mixed: every other node lists a drawn subset), start offsets 0-8 s in any order (a node may start before its seed: first join attempt fails), in regime S one case in five with a gossip rate limit of 1-3 messages per second and a burst of 1-2 on every node, per-message latencies 0-400 ms and losses from drawn tapes, a fault phase of 0-30 s (+ up to two detection timeouts) with 1-6 faults from {partition into two drawn sides, heal, reset of all connections (in-flight messages dropped), loss on/off, restart of a non-seed node (same address, or - 1 in 4 - a new one: the old address answers nobody any more), crash, graceful leave}; then every partition heals, losses stop and a quiet phase is observed. Regime S: failure-detection timeout longer than the scenario (no timeout can fire), quiet phase 180 s, strict oracle at its end: identical views (id, address, generation, incarnation stamp, status), membership == running nodes, every node computes the smallest running address as leader, exactly one node's last ClusterLeaderChangedEvent says IAmLeader and it is that node, no membership / leader event in the last third. Regime L: timeout 40 s (default), 10 s or 5 s, quiet phase 8 x (timeout + detection period), judged over its second half by sampling every timeout/8: a running node absent from a running node's view in every sample, a dead node listed in every sample and never announced as removed, two nodes computing different leaders in every sample = violations; the transient forms (absent / listed / different in some samples; membership and leader announcements that never stop) are the listed known findings. Both regimes: wherever a restarted node is listed in the window, the entry is its running incarnation's (stamp, address, generation); every node lists itself. Non-trivial = at least two kinds of fault happened, or a join attempt failed, or >= 3 nodes. Distinct = hash of the case.",
+		Rule: "2-7 real cluster.NodeActor values in a deterministic discrete-event simulation on a virtual clock (package csim: one queue per node, handlers run to completion except inside Ask, per-link FIFO, every message through the library's remoting envelope codec, global math/rand seeded per case): seed layouts (one seed; two seeds listed by all = two self-seeded islands that must merge; mixed: every other node lists a drawn subset), start offsets 0-8 s in any order (a node may start before its seed: first join attempt fails), in regime S one case in five with a gossip rate limit of 1-3 messages per second and a burst of 1-2 on every node, per-message latencies 0-400 ms and losses from drawn tapes, a fault phase of 0-30 s (+ up to two detection timeouts) with 1-6 faults from {partition into two drawn sides, heal, reset of all connections (in-flight messages dropped), loss on/off, restart of a non-seed node (same address, or - 1 in 4 - a new one: the old address answers nobody any more), crash, graceful leave}; then every partition heals, losses stop and a quiet phase is observed. Regime S: failure-detection timeout longer than the scenario (no timeout can fire), quiet phase 180 s, strict oracle at its end: identical views (id, address, generation, incarnation stamp, status), membership == running nodes, every node computes the smallest running address as leader, exactly one node's last ClusterLeaderChangedEvent says IAmLeader and it is that node, no membership / leader event in the last third. Regime L: timeout 40 s (default), 10 s or 5 s, quiet phase 8 x (timeout + detection period) but at least 180 s, judged over its second half by sampling every timeout/8 (at least every 1.2 s): a running node absent from a running node's view in any sample, two nodes computing different leaders in any sample, membership or leader announcements inside the window, a dead node listed in every sample and never announced as removed = violations; a dead node that is listed again in some samples, and the membership announcements that follow from that in a case in which a node died, are the listed known findings (signatures dead-node-listed-again and ...|after-a-node-died). Both regimes: wherever a restarted node is listed in the window, the entry is its running incarnation's (stamp, address, generation); every node lists itself. Non-trivial = at least two kinds of fault happened, or a join attempt failed, or >= 3 nodes. Distinct = hash of the case.",
 		Assumptions: []string{
-			"'eventually' is read with a bounded horizon: 180 s (S) or 8 x 1.5 x the detection timeout (L) after the last fault; a violation that needs longer to appear is missed, a convergence that needs longer would be reported - on the unchanged tree none of 16 000 generated cases needed longer",
+			"'eventually' is read with a bounded horizon: 180 s (S) or 8 x 1.5 x the detection timeout, at least 180 s (L) after the last fault; a violation that needs longer to appear is missed, a convergence that needs longer would be reported - on the unchanged tree none of 16 000 generated cases needed longer",
 			"the simulation replaces the actor runtime and TCP (covered by C01-C15) by their contracts; what the runtime adds (a Tell to an unreachable peer blocks the node for the reconnect back-off, known finding of C14) only delays a node",
 			"a node that crashed or left without being restarted is only generated in regime L: without timeouts nothing can remove it",
 			"white-box reads (NodeActor.clusterView) go through an overlay-only accessor file compiled into internal/cluster at check time",
